@@ -403,3 +403,33 @@ package corebgp
 //@   ensures [contains_wr]  nwr == 1 && wrT != 0 ==> errContainsTV(err, wrT, wrV)
 //@   ensures [contains_pa]  npa == 1 && paT != 0 ==> errContainsTV(err, paT, paV)
 //@   ensures [contains_nlri] nnlri == 1 && nlT != 0 ==> errContainsTV(err, nlT, nlV)
+
+//@ func asPathMalformedErr returns (err)
+//@   ensures [class] isTAW(err, 2, 3, 11) && len(tawNotif(err).Data) == 0
+
+// AS_PATH. The receiver is decoded into from its zero value (what the plugin
+// API documents); conservation: no AS number of any segment is lost.
+//@ func ASPathAttr.Decode returns (err)
+//@   requires [zero_value] a.ASSet == nil && a.ASSequence == nil
+//@   ghost b0 = b
+//@   ghostvar offs intarray = emptyArr()
+//@   ghostvar nseg int = 0
+//@   ghostvar total int = 0
+//@   ghostvar fpos int = 0
+//@   at call decodeUint32Set set offs = store(offs, nseg, offsetIn(b, b0) - 2)
+//@   at call decodeUint32Set set nseg = nseg + 1
+//@   at call decodeUint32Set set total = total + len(arg0) / 4
+//@   at call decodeUint32Set after set fpos = fpos + 2 + len(arg0)
+//@   loop#0 invariant [suffix]  suffixOf(b, b0) && wellKnownFlags(flags) && nseg >= 0 && total >= 0 && fpos == offsetIn(b, b0)
+//@   loop#0 invariant [chain]   segChain(b0, offs, nseg, offsetIn(b, b0))
+//@   loop#0 invariant [entries] forall k :: 0 <= k && k < nseg ==> segOK(b0, offs[k])
+//@   loop#0 invariant [conservation] len(a.ASSet) + len(a.ASSequence) == total && offsetIn(b, b0) == 2 * nseg + 4 * total
+//@   loop#0 invariant [fresh] (len(a.ASSet) == 0 ? a.ASSet == nil : fresh(a.ASSet.arr)) && (len(a.ASSequence) == 0 ? a.ASSequence == nil : fresh(a.ASSequence.arr))
+//@   loop#0 decreases len(b)
+//@   ensures [flags_class] !wellKnownFlags(flags) ==> isTAW(err, 2, 3, 4) && attrTLV(tawNotif(err).Data, 2, b)
+//@   ensures [empty_ok]    wellKnownFlags(flags) && len(b) == 0 ==> err == nil && len(a.ASSet) == 0 && len(a.ASSequence) == 0
+//@   ensures [len_class]   wellKnownFlags(flags) && len(b) != 0 && (len(b) < 6 || len(b) % 2 != 0) ==> isTAW(err, 2, 3, 5) && attrTLV(tawNotif(err).Data, 2, b)
+//@   ensures [accept_chain] err == nil && len(b) > 0 ==> wellKnownFlags(flags) && nseg >= 1 && segChain(b, offs, nseg, len(b)) && (forall k :: 0 <= k && k < nseg ==> segOK(b, offs[k]))
+//@   ensures [no_as_number_lost] err == nil ==> len(a.ASSet) + len(a.ASSequence) == (len(b) - 2 * nseg) / 4 && len(a.ASSet) + len(a.ASSequence) == total
+//@   ensures [fault_at_parse_position] err != nil && wellKnownFlags(flags) && len(b) >= 6 && len(b) % 2 == 0 ==> segChain(b, offs, nseg, fpos) && 0 <= fpos && fpos < len(b) && !segOK(b, fpos) && (isTAW(err, 2, 3, 11) || isTAW(err, 2, 3, 5))
+//@   modifies *a
